@@ -343,8 +343,14 @@ class ReaderLayout:
         if not (is_agg(it) and it[1].startswith('std::ops::Range') and agg_field(it, 'start') == ('int', 0)):
             return None, None
         end = agg_field(it, 'end')
-        if end[0] == 'cast':
-            end = end[1]
+        # the count as read: through casts and the clamp of a negative count to 0 (`n.max(0) as usize`)
+        for _ in range(4):
+            if end[0] == 'cast':
+                end = end[1]
+            elif end[0] == 'imax' and ('int', 0) in (end[1], end[2]):
+                end = end[1] if end[2] == ('int', 0) else end[2]
+            else:
+                break
         return end, 'range'
 
     def walk(self, effs, loops):
@@ -394,8 +400,13 @@ class ReaderLayout:
             if agg_field(base, 'start') != ('int', 0):
                 raise LayoutError("range loop not starting at 0")
             end = agg_field(base, 'end')
-            if end[0] == 'cast':
-                end = end[1]
+            for _ in range(4):      # through casts and the clamp of a negative count to 0
+                if end[0] == 'cast':
+                    end = end[1]
+                elif end[0] == 'imax' and ('int', 0) in (end[1], end[2]):
+                    end = end[1] if end[2] == ('int', 0) else end[2]
+                else:
+                    break
             return ('bound', end)
         if is_agg(base) and not base[1].startswith('std::'):
             # local iterator struct (part index iterator): (start, end) pairs from an offsets array + a total
